@@ -20,6 +20,13 @@ L3: crash injection `strace -e inject=<syscall>:signal=KILL:when=n -P results.cs
     rename the file under a fresh name without changing a byte of any earlier file, load it and
     run; every snapshot of a finished search's results must still be on disk in a distinct file.
 
+Environment (lean/Model/FilesEnv.lean): the process runs with log_dir, the system temporary directory (TMPDIR) and
+the working directory on the writable file systems found at run time (os.stat().st_dev; a single one -> counted note in
+the evidence), log_dir possibly given as a relative path, the working directory possibly changed after construction.
+Files outside log_dir that are later renamed / linked / copied onto a result file are part of the trace (named
+`<TMPDIR>/#k`, ...), kill points on them are addressed as the n-th call of the process.  `search(ck)` (called when L2 broke
+without a failing input) enumerates every call of the observed traces of the mismatching scenarios in every environment.
+
 Text layer (lean/Model/FilesText.lean over lean/Model/Csv.lean): a third of the searches store text with
 CSV-special characters (metadata strings, a categorical hyperparameter, a metadata key, the failure label:
 comma, quote, bare "\r", "\n", "\r\n", blanks at either end, empty, non-ASCII).  The bytes of results.csv are read by
@@ -58,8 +65,13 @@ FP_NO_DESTROY_EARLY = ("C15|no-destroy|Evaluator.dump_jobs_done_to_csv|first dum
                        "another search wrote results.csv")
 SCRATCH = "/tmp/g11/c15"
 TRACE_SET = ("openat,open,creat,write,pwrite64,writev,ftruncate,truncate,rename,renameat,renameat2,"
-             "unlink,unlinkat,link,linkat,symlink,symlinkat,close")
+             "unlink,unlinkat,link,linkat,symlink,symlinkat,close,sendfile,copy_file_range")
 CHILD_TIMEOUT = 120
+# the environment of the process (where log_dir, the system temporary directory and the working directory are, relative
+# to each other): directories probed for distinct writable file systems (os.stat().st_dev)
+FS_CANDIDATES = ("/tmp", "/dev/shm", "/var/tmp", "/run/user/%d" % os.getuid(), "~", "/mnt", "/run/shm")
+CWD_KINDS = ("same", "parent", "moved", "other")
+DEFAULT_ENV = {"log": 0, "tmp": 0, "cwd": "same"}
 
 
 FP_REUSE = "C15|wellformed-or-absent|Search.__init__|evaluator used by an earlier search, no results.csv in log_dir"
@@ -313,19 +325,55 @@ def _do_calls(s, run):
             s.search(max_evals=c)
 
 
+PROBE_OLD = "p:x,objective_0,objective_1,job_id\r\n0.1,1,2,0\r\n0.2,2,1,1\r\n"
+PROBE_NEW = "p:x,objective_0,objective_1,job_id,pareto_efficient\r\n0.1,1,2,0,True\r\n0.2,2,1,1,False\r\n"
+
+
+def _move_probe_program(log_dir, side):
+    """no code of the repository: the standard library moves a complete file from the system temporary directory onto
+    log_dir/results.csv (what the environment model `Model/FilesEnv.lean` describes: rename inside one file system,
+    EXDEV + truncate-and-copy across two)"""
+    mark = os.open(os.path.join(side, "marks.log"), os.O_WRONLY | os.O_CREAT | os.O_APPEND, 0o644)
+    res = os.path.join(log_dir, "results.csv")
+    os.write(mark, b"run 0\n")
+    with open(res, "w", newline="") as f:
+        f.write(PROBE_OLD)
+    src = os.path.join(tempfile.gettempdir(), "results_probe.csv")
+    with open(src, "w", newline="") as f:
+        f.write(PROBE_NEW)
+    os.write(mark, b"run 1\n")
+    shutil.move(src, res)
+    os.write(mark, b"finished 1\n")
+
+
 def _program(scn, log_dir, side):
-    """what the traced child executes"""
+    """what the traced child executes (`log_dir`: a path, or the directories of `_make_env_dirs`: the process then
+    first gets the scenario's environment - TMPDIR, working directory - and hands log_dir to the searches the way the
+    environment says, possibly as a relative path)"""
+    dirs = None
+    if isinstance(log_dir, dict):
+        dirs, log_dir = log_dir, log_dir["log_dir"]
+        _apply_env(dirs)
+    log_arg = dirs["arg"] if dirs else log_dir
+    if scn.get("probe") == "move":
+        return _move_probe_program(log_dir, side)
     if scn.get("clock") == "const":
         time.strftime = lambda *a, **k: CONST_STAMP
     sk = scn.get("_selfkill")
     _SELFKILL.update(at=sk["at"] if sk else None, k=sk["k"] if sk else 0, n=0)
     mark = os.open(os.path.join(side, "marks.log"), os.O_WRONLY | os.O_CREAT | os.O_APPEND, 0o644)
 
-    state = {"prev": None}
+    state = {"prev": None, "constructing": True}
+
+    def moved():
+        # the user changes directory after the search objects exist
+        if dirs and dirs.get("cwd2") and state["constructing"]:
+            os.chdir(dirs["cwd2"])
+            state["constructing"] = False  # (a relative log_dir would now mean another directory)
 
     def create(idx, run):
         os.write(mark, f"run {idx}\n".encode())
-        d = log_dir
+        d = log_arg if state["constructing"] else log_dir
         if run.get("elsewhere"):
             d = os.path.join(side, f"elsewhere_{idx}")  # a search in another (untraced) directory
         s = _make_search(run, idx, d, side, reuse=state["prev"] if run.get("reuse") else None)
@@ -347,11 +395,15 @@ def _program(scn, log_dir, side):
     if scn.get("early"):
         # every search object is constructed before the first one runs (nothing to rename yet)
         objs = [create(idx, run) for idx, run in enumerate(scn["runs"])]
+        moved()
         for idx, run in enumerate(scn["runs"]):
             act(idx, run, objs[idx])
     else:
         for idx, run in enumerate(scn["runs"]):
-            act(idx, run, create(idx, run))
+            s = create(idx, run)
+            if idx == 0:
+                moved()
+            act(idx, run, s)
 
 
 def _frame_summary(df):
@@ -378,6 +430,12 @@ def _continuation(scn, log_dir, side):
     from deephyper.evaluator import Evaluator
     from deephyper.hpo import CBO
 
+    if isinstance(log_dir, dict):
+        # the same environment as the killed process had (the user starts again from the same shell)
+        dirs, log_dir = log_dir, log_dir["log_dir"]
+        _apply_env(dirs)
+        if dirs.get("cwd2"):
+            os.chdir(dirs["cwd2"])
     out = {}
     last = dict(scn["runs"][-1])
     res = os.path.join(log_dir, "results.csv")
@@ -482,13 +540,18 @@ def _wait(pid, timeout=CHILD_TIMEOUT):
         time.sleep(0.005)
 
 
-def _run_traced(scn, log_dir, side, inject):
-    pid, go = _fork(_program, scn, log_dir, side)
+def _run_traced(scn, dirs, side, inject):
+    """`inject` = (system call, n, mode): SIGKILL on entry of the n-th such call - mode "P": among the calls strace's
+    path filter on results.csv / results.csv.tmp selects; mode "all": among all calls of the process (for calls on
+    files whose names differ from execution to execution, which no path filter can name in advance)"""
+    log_dir = dirs["log_dir"]
+    pid, go = _fork(_program, scn, dirs, side)
     out = os.path.join(side, "strace.txt")
     cmd = ["strace", "-f", "-y", "-s", "4000000", "-o", out, "-e", "trace=" + TRACE_SET]
     if inject:
-        cmd += ["-e", f"inject={inject[0]}:signal=KILL:when={inject[1]}",
-                "-P", os.path.join(log_dir, "results.csv"), "-P", os.path.join(log_dir, "results.csv.tmp")]
+        cmd += ["-e", f"inject={inject[0]}:signal=KILL:when={inject[1]}"]
+        if len(inject) < 3 or inject[2] == "P":
+            cmd += ["-P", os.path.join(log_dir, "results.csv"), "-P", os.path.join(log_dir, "results.csv.tmp")]
     cmd += ["-p", str(pid)]
     st = subprocess.Popen(cmd, stdout=subprocess.DEVNULL, stderr=subprocess.PIPE)
     t0 = time.time()
@@ -556,25 +619,107 @@ def _unescape(s):
 _STR = r'"((?:[^"\\]|\\.)*)"'
 
 
-def _parse_strace(text, pid, log_dir, marks=None):
-    """system calls of the traced process that touch a path under log_dir -> list of raw ops.
+RESULT_RE = re.compile(r"^results(_(\d{8}-\d{6})(_(\d+))?)?\.csv(\.tmp)?$")
+_MOVE_CALLS = ("rename", "renameat", "renameat2", "link", "linkat")
+_COPY_CALLS = ("sendfile", "copy_file_range")
+_FDPATH = r"\d+<([^>]*)>"
+
+
+def _is_result_name(n):
+    return bool(RESULT_RE.match(n))
+
+
+def _is_ext(n):
+    """canonical name of a file that is no result file itself but is moved / copied onto one (`<where>/#k`)"""
+    return n.startswith("<") and "/#" in n
+
+
+def _pure_ext(o):
+    """a call that concerns nothing but files which are no result files (yet)"""
+    return bool(o.get("ext")) and not any(_is_result_name(str(o.get(x, ""))) for x in ("n", "to"))
+
+
+def _parse_strace(text, pid, log_dir, marks=None, dirs=None):
+    """system calls of the traced process that touch a result file of log_dir, or a file (in whatever directory) that
+    the process later renames / links / copies onto a result file of log_dir -> list of raw ops.
     `marks` = path of the marker file: every op gets `sid` = index of the search being run, i.e. the
-    number of 'run i' marker writes seen before it, minus one (only visible without the -P filter)"""
-    pend, ops = {}, []
-    sid, harness = 0, False
+    number of 'run i' marker writes seen before it, minus one (only visible without the -P filter).
+    `dirs` = the directories of the execution's environment: relative paths are resolved against the working
+    directories, files outside log_dir are named after the directory they are in (`<TMPDIR>/#0`, `<cwd>/#1`, ...:
+    temporary names differ from execution to execution).  Every op carries `ord` = (thread, its ordinal among ALL calls
+    of that system call by that thread since strace attached) and `pmatch` = would strace's -P filter on results.csv /
+    results.csv.tmp select the call"""
     pref = log_dir.rstrip("/") + "/"
+    cwds = [c for c in ((dirs or {}).get("cwd"), (dirs or {}).get("cwd2")) if c]
+    tmpd = (dirs or {}).get("tmp")
+    pnames = (pref + "results.csv", pref + "results.csv.tmp")
+    relhints = []
+    for c in cwds:
+        c = c.rstrip("/") + "/"
+        if pref.startswith(c):
+            relhints += ['"' + pref[len(c):], '"./' + pref[len(c):]]
+
+    def resolve(path):
+        if path.startswith("/") or not cwds:
+            return os.path.normpath(path) if path.startswith("/") and ("/./" in path or "/../" in path or "//" in path) else path
+        cands = [os.path.normpath(os.path.join(c, path)) for c in cwds]
+        return next((x for x in cands if x.startswith(pref)), cands[0])
+
+    # pass 1: whole calls in the order they were entered (per thread), with their ordinals
+    pend, calls, nth = {}, [], {}
     for line in text.splitlines():
         m = re.match(r"(\d+)\s+(.*)$", line)
         if not m:
             continue
         p, rest = m.group(1), m.group(2)
+        if rest.startswith(("+++", "---")):
+            continue
         if rest.endswith("<unfinished ...>"):
             pend[p] = rest[: -len("<unfinished ...>")].rstrip()
             continue
         m2 = re.match(r"<\.\.\. \w+ resumed>(.*)$", rest)
         if m2:
             rest = pend.pop(p, "") + m2.group(1).lstrip()
-        if marks and rest.startswith("write(") and ("<" + marks + ">") in rest:
+        name = rest[: rest.find("(")] if "(" in rest else ""
+        if not name.isidentifier():
+            continue
+        nth[(p, name)] = nth.get((p, name), 0) + 1
+        calls.append((p, name, nth[(p, name)], rest))
+    for p, rest in pend.items():  # a call the process was killed in (never resumed)
+        name = rest[: rest.find("(")] if "(" in rest else ""
+        if name.isidentifier():
+            nth[(p, name)] = nth.get((p, name), 0) + 1
+            calls.append((p, name, nth[(p, name)], rest + ") = ?"))
+
+    def in_dir(path):
+        return path.startswith(pref) and _is_result_name(path[len(pref):])
+
+    # pass 2: files that are moved / linked / copied onto a result file of log_dir
+    foreign = {}
+    for p, name, n, rest in calls:
+        src = dst = None
+        if name in _MOVE_CALLS:
+            ps = [resolve(_unescape(x)) for x in re.findall(_STR, rest)]
+            if len(ps) >= 2:
+                src, dst = ps[-2], ps[-1]
+        elif name in _COPY_CALLS:
+            fds = re.findall(_FDPATH, rest)
+            if len(fds) >= 2:
+                dst, src = (fds[0], fds[1]) if name == "sendfile" else (fds[1], fds[0])
+        if src and dst and in_dir(dst) and not in_dir(src) and src not in foreign:
+            d = os.path.dirname(src)
+            where = "<log_dir>" if src.startswith(pref) else "<TMPDIR>" if d == tmpd else "<cwd>" if d in cwds else "<" + d + ">"
+            foreign[src] = f"{where}/#{len(foreign)}"
+
+    def rel(path):
+        if path in foreign:
+            return foreign[path]
+        return path[len(pref):] if path.startswith(pref) else None
+
+    ops = []
+    sid, harness = 0, False
+    for p, name, n, rest in calls:
+        if marks and name == "write" and ("<" + marks + ">") in rest:
             mm = re.search(r'"(?:run|act) (\d+)', rest)
             if mm:
                 sid = int(mm.group(1))
@@ -583,27 +728,26 @@ def _parse_strace(text, pid, log_dir, marks=None):
             if '"snapped ' in rest:
                 harness = False
             continue
-        if pref not in rest or rest.startswith(("+++", "---")):
+        if pref not in rest and not any(f in rest for f in foreign) and not any(h in rest for h in relhints):
             continue
-        m = re.match(r"(\w+)\((.*)\)\s+=\s+(\S+)", rest, re.S)
+        m = re.match(r"(\w+)\((.*)\)\s+=\s+(\S+)(?:\s+([A-Z]+))?", rest, re.S)
         if not m:
             raise HarnessError("cannot parse strace line: " + rest[:200])
-        name, args, ret = m.groups()
+        name, args, ret, errno = m.groups()
         killed = ret == "?"
         failed = ret.startswith("-")
-
-        def rel(path):
-            return path[len(pref):] if path.startswith(pref) else None
-
+        strs = [_unescape(x) for x in re.findall(_STR, args)] if name not in ("write", "pwrite64", "writev") else []
+        fds = re.findall(_FDPATH, args if name not in ("write", "pwrite64", "writev") else args[:args.find(">") + 1])
         op = None
         if name in ("openat", "open", "creat"):
             pm = re.search(_STR + r",\s*([A-Z_|0-9a-z]+)", args)
             if not pm:
                 raise HarnessError("cannot parse open: " + rest[:200])
-            path, flags = _unescape(pm.group(1)), pm.group(2).split("|")
+            path, flags = resolve(_unescape(pm.group(1))), pm.group(2).split("|")
+            strs = [_unescape(pm.group(1))]
             if rel(path) is None:
                 continue
-            kind = ("openR" if "O_RDONLY" in flags else "openW" if "O_TRUNC" in flags else
+            kind = ("openR" if "O_RDONLY" in flags else "openW" if "O_TRUNC" in flags or ("O_CREAT" in flags and "O_EXCL" in flags) else
                     "openA" if "O_APPEND" in flags else "openX")
             if "O_DIRECTORY" in flags:
                 continue
@@ -621,39 +765,47 @@ def _parse_strace(text, pid, log_dir, marks=None):
                 continue
             op = {"op": "close", "n": rel(fm.group(1)), "sys": name}
         elif name in ("rename", "renameat", "renameat2"):
-            ps = [_unescape(x) for x in re.findall(_STR, args)]
-            if len(ps) != 2:
+            if len(strs) != 2:
                 raise HarnessError("cannot parse rename: " + rest[:200])
+            ps = [resolve(x) for x in strs]
             if rel(ps[0]) is None and rel(ps[1]) is None:
                 continue
             op = {"op": "rename", "n": rel(ps[0]) or ps[0], "to": rel(ps[1]) or ps[1], "sys": name}
+        elif name in _COPY_CALLS and len(fds) >= 2:
+            dst, src = (fds[0], fds[1]) if name == "sendfile" else (fds[1], fds[0])
+            if rel(dst) is None and rel(src) is None:
+                continue
+            if rel(dst) is not None:
+                # the kernel copies bytes of `from` to the end of `n`: a write whose payload strace does not show
+                op = {"op": "copy", "n": rel(dst), "from": rel(src) or src, "bytes": ret, "sys": name}
+            else:
+                op = {"op": name, "n": rel(src), "sys": name}
         else:
-            ps = [_unescape(x) for x in re.findall(_STR, args)] + re.findall(r"\d+<([^>]*)>", args)
+            ps = [resolve(x) for x in strs] + fds
             ps = [rel(x) for x in ps if rel(x) is not None]
             if not ps:
                 continue
             op = {"op": name, "n": ps[0], "sys": name}
         op["sid"] = sid
+        op["ord"] = [p, n]
+        # (strace 6.1 compares only the FIRST path of rename / link with its -P set: observed)
+        op["pmatch"] = any(x in pnames for x in (strs[:1] if name in _MOVE_CALLS else strs) + fds)
+        if any(_is_ext(str(op.get(x, ""))) for x in ("n", "to", "from")):
+            op["ext"] = True
         if harness:
             op["harness"] = True
         if killed:
             op["killed"] = True
         if failed:
-            op["failed"] = ret
+            op["failed"] = errno or ret
         ops.append(op)
     return ops
 
 
-RESULT_RE = re.compile(r"^results(_(\d{8}-\d{6})(_(\d+))?)?\.csv(\.tmp)?$")
-
-
-def _is_result_name(n):
-    return bool(RESULT_RE.match(n))
-
-
 def _result_ops(raw):
-    """ops on result files only (context.yaml etc. are not C15's business)"""
-    return [o for o in raw if _is_result_name(o["n"]) or ("to" in o and _is_result_name(o["to"]))]
+    """ops on result files, and on files that are moved / copied onto result files (context.yaml etc. are not C15's
+    business)"""
+    return [o for o in raw if o.get("ext") or _is_result_name(o["n"]) or ("to" in o and _is_result_name(o["to"]))]
 
 
 def _tag_lines(ops):
@@ -662,11 +814,16 @@ def _tag_lines(ops):
     hdr, owner = {}, {}
     for o in ops:
         sid = o.get("sid", 0)
+        if o.get("failed"):
+            continue
         if o["op"] == "rename":
             if o["n"] in hdr:
                 hdr[o["to"]] = hdr.pop(o["n"])
             if o["n"] in owner:
                 owner[o["to"]] = owner.pop(o["n"])
+        elif o["op"] == "copy":
+            if o["from"] in hdr:
+                hdr[o["n"]] = hdr[o["from"]]
         elif o["op"] == "openW":
             owner[o["n"]] = sid
             hdr.pop(o["n"], None)
@@ -712,11 +869,17 @@ def _canon(o, unordered=False):
         c["to"] = RESULT_RE.sub(lambda m: "results_<t>" + (m.group(3) or "") + ".csv" if m.group(2) else m.group(0), o["to"]) if unordered else o["to"]
     if "lines" in o:
         c["lines"] = sorted(o["lines"], key=repr) if unordered else o["lines"]
+    if "from" in o:
+        c["from"] = o["from"]
+    if o.get("failed"):
+        c["failed"] = o["failed"]  # (the model's calls all succeed)
     return c
 
 
 def _matched(o):
     """does strace's `-P results.csv -P results.csv.tmp` filter select this call?"""
+    if "pmatch" in o:
+        return o["pmatch"]
     return any(x in ("results.csv", "results.csv.tmp") for x in [o["n"]] + ([o["to"]] if "to" in o else []))
 
 
@@ -731,21 +894,24 @@ def _read_dir(d):
 
 
 def _task(task):
-    """pool worker: one traced execution (+ optional kill, + continuation after a kill)"""
+    """pool worker: one traced execution (+ optional kill, + continuation after a kill) in the scenario's environment
+    (log_dir / system temporary directory / working directory on the file systems it names)"""
     scn, inject = task["scn"], task.get("inject")
-    base = tempfile.mkdtemp(prefix="s", dir=_scratch())
-    log_dir, side = os.path.join(base, "ld"), os.path.join(base, "side")
-    os.makedirs(log_dir)
-    os.makedirs(side)
+    env = _env_of(scn)
+    base = tempfile.mkdtemp(prefix="s", dir=_scratch(env["log"]))
+    dirs = {"extra": []}
     try:
+        dirs = _make_env_dirs(env, base)
+        log_dir, side = dirs["log_dir"], os.path.join(base, "side")
+        os.makedirs(side)
         if task.get("selfkill"):
-            cpid, go = _fork(_program, {**scn, "_selfkill": task["selfkill"]}, log_dir, side)
+            cpid, go = _fork(_program, {**scn, "_selfkill": task["selfkill"]}, dirs, side)
             os.write(go, b"x")
             os.close(go)
             status, raw = _wait(cpid), []
         else:
-            status, pid, text = _run_traced(scn, log_dir, side, inject)
-            raw = _parse_strace(text, pid, log_dir, os.path.join(side, "marks.log"))
+            status, pid, text = _run_traced(scn, dirs, side, inject)
+            raw = _parse_strace(text, pid, log_dir, os.path.join(side, "marks.log"), dirs)
         sidefiles = _read_dir(side)
         out = {"status": status, "ops": _result_ops(raw),
                "dumped": [l for l in sidefiles.get("dumped.log", "").split("\n") if l],
@@ -753,13 +919,14 @@ def _task(task):
                "done": [l for l in sidefiles.get("done.log", "").split("\n") if l],
                "marks": [l for l in sidefiles.get("marks.log", "").split("\n") if l],
                "snaps": {n: t for n, t in sidefiles.items() if n.startswith("snap_")},
-               "err": sidefiles.get("child_err.txt")}
+               "err": sidefiles.get("child_err.txt"),
+               "tmp_on_log_dev": os.stat(dirs["tmp"]).st_dev == os.stat(log_dir).st_dev}
         if task.get("torn"):
             out["torn"] = _torn_variants(raw, log_dir, base)
         if task.get("post"):
             side2 = os.path.join(base, "side2")
             os.makedirs(side2)
-            cpid, go = _fork(_continuation, scn, log_dir, side2)
+            cpid, go = _fork(_continuation, scn, dirs, side2)
             os.write(go, b"x")
             os.close(go)
             cst = _wait(cpid)
@@ -770,6 +937,8 @@ def _task(task):
         return out
     finally:
         shutil.rmtree(base, ignore_errors=True)
+        for d in dirs.get("extra", []):
+            shutil.rmtree(d, ignore_errors=True)
 
 
 def _fit_file(path, base):
@@ -883,11 +1052,143 @@ def _init_worker():
         shutil.rmtree(base, ignore_errors=True)
 
 
-def _scratch():
-    """per-run scratch directory (the pool workers get it through the environment)"""
+def _scratch(fs=0):
+    """per-run scratch directory on file system number `fs` (taken modulo the number of writable file systems
+    found; the pool workers get the list through the environment)"""
     d = os.environ.get("C15_SCRATCH", SCRATCH)
+    if fs:
+        try:
+            others = json.loads(os.environ.get("C15_FS", "[]"))
+        except ValueError:
+            others = []
+        if others:
+            d = ([d] + others)[fs % (len(others) + 1)]
     os.makedirs(d, exist_ok=True)
     return d
+
+
+def _n_fs():
+    try:
+        return 1 + len(json.loads(os.environ.get("C15_FS", "[]")))
+    except ValueError:
+        return 1
+
+
+def _detect_filesystems(ck=None):
+    """Which distinct writable file systems does this machine offer?  File system 0 is the one of the scratch
+    directory; every candidate directory on another device (os.stat().st_dev) in which a directory can be created and a
+    file written gives one more.  Sets C15_FS (scratch directories on the other file systems) for the pool workers;
+    returns the description that goes into the evidence."""
+    tag = f"g11_c15_{os.getpid()}"
+    d0 = os.environ.get("C15_SCRATCH", SCRATCH)
+    os.makedirs(d0, exist_ok=True)
+    seen = {os.stat(d0).st_dev: d0}
+    cands = [tempfile.gettempdir(), os.environ.get("TMPDIR") or ""] + [os.path.expanduser(c) for c in FS_CANDIDATES]
+    for c in cands:
+        try:
+            if not c or not os.path.isdir(c):
+                continue
+            # scratch directories left on other file systems by runs that were killed (their process is gone)
+            for n in os.listdir(c):
+                m = re.match(r"g11_c15_(\d+)$", n)
+                if m and not os.path.exists(f"/proc/{m.group(1)}"):
+                    shutil.rmtree(os.path.join(c, n), ignore_errors=True)
+            if os.stat(c).st_dev in seen:
+                continue
+            d = os.path.join(c, tag)
+            os.makedirs(d, exist_ok=True)
+            with open(os.path.join(d, "probe"), "w") as f:
+                f.write("x")
+            os.unlink(os.path.join(d, "probe"))
+            if os.stat(d).st_dev in seen:
+                shutil.rmtree(d, ignore_errors=True)
+                continue
+            seen[os.stat(d).st_dev] = d
+        except OSError:
+            continue
+    dirs = list(seen.values())
+    os.environ["C15_FS"] = json.dumps(dirs[1:])
+    desc = {"writable_file_systems": [{"dir": d, "st_dev": dev} for dev, d in seen.items()]}
+    if len(dirs) == 1:
+        desc["note"] = ("only ONE writable file system found among " + ", ".join(sorted(set(c for c in cands if c))) +
+                        ": the dimension 'system temporary directory / working directory on another file system than log_dir' "
+                        "is NOT exercised on this machine (every such environment falls back to the single file system; counted "
+                        "as env:cross-device-unavailable)")
+    if ck is not None:
+        ck.extra_cov["environment"] = desc
+    return dirs
+
+
+def _cleanup_filesystems():
+    if os.environ.get("C15_SCRATCH"):
+        shutil.rmtree(os.environ["C15_SCRATCH"], ignore_errors=True)
+    try:
+        for d in json.loads(os.environ.get("C15_FS", "[]")):
+            shutil.rmtree(d, ignore_errors=True)
+    except ValueError:
+        pass
+
+
+def _env_of(scn):
+    """the environment of a scenario's process: {"log": i, "tmp": j, "cwd": kind} - log_dir on file system i, the
+    system temporary directory (TMPDIR, tempfile.gettempdir()) a private directory on file system j, the working
+    directory: `same` = a private directory on log_dir's file system, `other` = on another one, `parent` = the parent of
+    log_dir, which is then given to the search as a RELATIVE path, `moved` = like parent while the searches are
+    constructed, then the process changes to a directory elsewhere (another file system when there is one)"""
+    e = dict(DEFAULT_ENV)
+    e.update(scn.get("env") or {})
+    return e
+
+
+def _env_key(env):
+    n = _n_fs()
+    cross = n > 1 and (env["tmp"] % n) != (env["log"] % n)
+    return f"env:log=fs{env['log'] % n},tmp={'other' if cross else 'same'}-fs,cwd={env['cwd']}"
+
+
+def _make_env_dirs(env, base):
+    """the directories of one execution: (log_dir as created, log_dir as handed to the search, TMPDIR, cwd at start,
+    cwd after the searches are constructed or None, extra directories to remove afterwards)"""
+    n = _n_fs()
+    lfs = env["log"] % n
+    extra = []
+    log_dir = os.path.join(base, "ld")
+    os.makedirs(log_dir)
+    tfs = env["tmp"] % n
+    if tfs == lfs:
+        tmpd = os.path.join(base, "tmpdir")
+        os.makedirs(tmpd)
+    else:
+        tmpd = tempfile.mkdtemp(prefix="t", dir=_scratch(tfs))
+        extra.append(tmpd)
+    kind = env.get("cwd", "same")
+    ofs = (lfs + 1) % n
+
+    def private(fs):
+        if fs == lfs:
+            d = os.path.join(base, "cwd")
+            os.makedirs(d, exist_ok=True)
+        else:
+            d = tempfile.mkdtemp(prefix="w", dir=_scratch(fs))
+            extra.append(d)
+        return d
+    arg, cwd2 = log_dir, None
+    if kind == "parent":
+        cwd, arg = base, "ld"
+    elif kind == "moved":
+        cwd, arg, cwd2 = base, "ld", private(ofs)
+    elif kind == "other":
+        cwd = private(ofs)
+    else:
+        cwd = private(lfs)
+    return {"log_dir": log_dir, "arg": arg, "tmp": tmpd, "cwd": cwd, "cwd2": cwd2, "extra": extra}
+
+
+def _apply_env(dirs):
+    """in the child: the process environment a user's shell would have set up"""
+    os.environ["TMPDIR"] = dirs["tmp"]
+    tempfile.tempdir = None  # (documented: gettempdir() looks at TMPDIR again)
+    os.chdir(dirs["cwd"])
 
 
 # --------------------------------------------------------------------------- model side
@@ -903,7 +1204,7 @@ def _groups(ops):
             i += 1
         elif o["op"] in ("openW", "openA"):
             j = i + 1
-            while j < n and ops[j]["op"] == "write" and ops[j]["n"] == o["n"]:
+            while j < n and ops[j]["op"] in ("write", "copy") and ops[j]["n"] == o["n"]:
                 j += 1
             if j < n and ops[j]["op"] == "close" and ops[j]["n"] == o["n"]:
                 j += 1
@@ -914,9 +1215,9 @@ def _groups(ops):
                 j += 1
             gs.append({"kind": "write", "ops": list(range(i, j))})
             i = j
-        elif o["op"] == "openR":
+        elif o["op"] == "openR" and o["n"] == "results.csv":
             j = i + 1
-            if j < n and ops[j]["op"] == "close":
+            if j < n and ops[j]["op"] == "close" and ops[j]["n"] == o["n"]:
                 j += 1
             gs.append({"kind": "read", "ops": list(range(i, j))})
             i = j
@@ -930,8 +1231,10 @@ def _groups(ops):
         sid = ops[g["ops"][0]].get("sid", 0)
         if g["kind"] == "read":
             nread[sid] = nread.get(sid, 0) + 1
-        elif g["kind"] == "write":
-            g["kind"] = "rewrite" if nread.get(sid, 0) % 2 == 1 else "dump"
+        else:
+            g["in_end"] = nread.get(sid, 0) % 2 == 1  # whatever the call: it is made by the end-of-search rewrite
+            if g["kind"] == "write":
+                g["kind"] = "rewrite" if g["in_end"] else "dump"
     return gs
 
 
@@ -941,7 +1244,7 @@ def _phase_of(ops, gs, k):
         if k in g["ops"]:
             if g["kind"] == "backup":
                 return "Search.__init__"
-            if g["kind"] == "rewrite":
+            if g["kind"] == "rewrite" or (g["kind"] == "other" and g.get("in_end")):
                 return "pareto-rewrite"
             if g["kind"] == "dump":
                 first = ops[g["ops"][0]]
@@ -1192,14 +1495,50 @@ def _scenarios(ck):
             # (C04's recorded finding): the first call of such a run is made long enough to see a success
             if r["nobj"] > 1 and r.get("fail") == "first" and r["calls"] and isinstance(r["calls"][0], int) and not r.get("reuse"):
                 r["calls"][0] = max(r["calls"][0], r["batch"] + 1)
-    for s in core + extra + same:
+    # the environment of the process: log_dir / the system temporary directory on each pair of writable file systems,
+    # the working directory same / parent of a relative log_dir / changed after construction / elsewhere.  The core
+    # scenarios cycle through the pairs (from a seeded offset), the others draw.  Thorough: three compact scenarios that
+    # go through every protocol phase are run in EVERY pair (all kill points).
+    nfs = _n_fs()
+    pairs = [(l, t) for l in range(nfs) for t in range(nfs)]
+    if os.environ.get("C15_DEFAULT_ENV_ONLY"):  # development aid: exercises the `search` hook on a changed tree
+        pairs = [(0, 0)]
+    off, coff = rng.randrange(len(pairs)), rng.randrange(len(CWD_KINDS))
+    for i, s in enumerate(core):
+        l, t = pairs[(i + off) % len(pairs)]
+        s["env"] = {"log": l, "tmp": t, "cwd": CWD_KINDS[(i // len(pairs) + coff) % len(CWD_KINDS)]}
+    for s in extra + same:
+        l, t = rng.choice(pairs)
+        s["env"] = {"log": l, "tmp": t, "cwd": rng.choice(CWD_KINDS)}
+    probes = []
+    if ck.thorough:
+        base = [core[0], core[5], {"clock": "const", "early": True,
+                                   "runs": [{"kind": "random", "nobj": 1, "batch": 2, "calls": [3]},
+                                            {"kind": "random", "nobj": 2, "batch": 1, "calls": [2, 1]}]}]
+        for b in base:
+            for i, (l, t) in enumerate(pairs):
+                e = {"log": l, "tmp": t, "cwd": CWD_KINDS[(i + coff) % len(CWD_KINDS)]}
+                if b.get("env") != e:
+                    probes.append({**json.loads(json.dumps(b)), "env": e})
+    for s in core + extra + same + probes:
         s.setdefault("clock", "real")
         for r in s["runs"]:
             r.setdefault("wide", 0)
             r.setdefault("fail", "none")
             r.setdefault("seed", 1)
             r.setdefault("cells", "benign")
-    return core + extra + same
+    return core + probes + extra + same
+
+
+def _hazard_points(ops):
+    """kill points no sample may drop: the instant results.csv itself is opened for (re)creation, truncated, or filled by
+    a copy (it then exists with less than its content until the writes that follow are done) - before such a call,
+    after it and before the call that ends the window"""
+    ks, n = set(), len(ops)
+    for k, o in enumerate(ops):
+        if o["n"] == "results.csv" and o["op"] in ("openW", "openX", "truncate", "ftruncate", "copy", "unlink", "unlinkat"):
+            ks.update(x for x in (k, k + 1) if x < n)
+    return ks
 
 
 def _kill_points(ck, scn, ops, gs):
@@ -1211,21 +1550,24 @@ def _kill_points(ck, scn, ops, gs):
     ks, seen = {0, n - 1}, set()
     for g in gs:
         kind = _phase_of(ops, gs, g["ops"][0])
-        if kind in ("first-dump", "pareto-rewrite", "Search.__init__") and kind not in seen:
+        if kind in ("first-dump", "pareto-rewrite", "Search.__init__") and (kind not in seen or g.get("in_end") and kind + "/end" not in seen):
             ks.update(g["ops"])
             ks.add(min(n - 1, g["ops"][-1] + 1))
         elif kind in ("first-dump", "pareto-rewrite", "Search.__init__", "append-dump"):
             ks.add(ck.rng.choice(g["ops"]))
         seen.add(kind)
+        if g["kind"] == "read" and "pareto-rewrite" in seen:
+            seen.add("pareto-rewrite/end")  # every call of the first end-of-search rewrite, however many groups it has
     rest = [k for k in range(n) if k not in ks]
     ck.rng.shuffle(rest)
     ks.update(rest[:2])
+    must = ({0, n - 1} | _hazard_points(ops)) & set(range(n))
     ks = sorted(ks)
     cap = 6 if any(isinstance(c, dict) for r in scn["runs"] for c in r["calls"]) else 12
     if len(ks) > cap:
-        keep = set(ck.rng.sample(ks, cap)) | {0, n - 1}
+        keep = set(ck.rng.sample(ks, cap)) | must
         ks = sorted(keep)
-    return ks
+    return sorted(set(ks) | must)
 
 
 def _spec_kills(specs, ops, gs):
@@ -1246,13 +1588,18 @@ def _spec_kills(specs, ops, gs):
     return sorted(k for k in ks if 0 <= k < len(ops))
 
 
-def _inject_for(ops, k):
-    """(syscall name, n): op k is the n-th call of that syscall among the ops strace's -P filter selects"""
-    if not _matched(ops[k]):
-        return None
-    sysname = ops[k]["sys"]
-    n = sum(1 for o in ops[: k + 1] if _matched(o) and o["sys"] == sysname)
-    return (sysname, n)
+def _inject_for(ops, k, pid=None):
+    """(syscall name, n, mode) for a kill on entry of op k.  Mode "P": op k is the n-th call of that syscall among the
+    ops strace's -P filter selects.  A call the filter cannot select (it only concerns a file whose name is made up at
+    run time, e.g. a uniquely named temporary file that is later moved onto results.csv) is addressed as the n-th call
+    of that system call by its thread since strace attached (mode "all"; the recorded run counted them)"""
+    if _matched(ops[k]):
+        sysname = ops[k]["sys"]
+        n = sum(1 for o in ops[: k + 1] if _matched(o) and o["sys"] == sysname)
+        return (sysname, n, "P")
+    if ops[k].get("ord"):
+        return (ops[k]["sys"], ops[k]["ord"][1], "all")
+    return None
 
 
 # --------------------------------------------------------------------------- evaluation
@@ -1271,6 +1618,25 @@ def _opts(scn, phase):
     return "any"
 
 
+_ENV_TAG = {}   # scenario -> what its recorded run did that makes the process environment matter
+_L2_BROKEN = []  # scenarios whose recorded system calls differ from the model's trace (input of `search`)
+
+
+def _note_env_tag(scn, ops):
+    """the environment enters a fingerprint only through what the run was SEEN to do with it: a rename(2) that
+    failed with EXDEV names the place (system temporary directory, working directory, ...) that was on another file
+    system than log_dir"""
+    tags = []
+    for o in ops:
+        if o.get("failed") == "EXDEV":
+            other = next((str(o.get(x)) for x in ("n", "to") if not _is_result_name(str(o.get(x)))), "?")
+            where = other[1:other.index(">")] if other.startswith("<") and ">" in other else "elsewhere"
+            t = f",{where}=on-another-file-system"
+            if t not in tags:
+                tags.append(t)
+    _ENV_TAG[common.canon(scn)] = "".join(sorted(tags))
+
+
 def _failer(ck, scn, case, state, phase, opts, own):
     """the `fail(clause, what, detail)` of one judged disk state: at most one violation per state; the fingerprint
     names the clause, the phase of the killed call, the options and the input class (`hostile`: of the search
@@ -1280,7 +1646,8 @@ def _failer(ck, scn, case, state, phase, opts, own):
             return
         state["failed"] = True
         tag = _cells_tag(scn, own) if hostile is None else (",cells=csv-special" if hostile else "")
-        ck.fail(_fp_nd(scn) if clause is None else f"C15|{clause}|{phase}|{opts}{tag}", what, case, detail)
+        etag = _ENV_TAG.get(common.canon(scn), "")
+        ck.fail(_fp_nd(scn) if clause is None else f"C15|{clause}|{phase}|{opts}{etag}{tag}", what, case, detail)
     return fail
 
 
@@ -1330,6 +1697,10 @@ def _check_record(ck, ev, scn, rec):
         o["raw"] = i
     ops = rec["code_ops"] = [o for o in rec["ops"] if not o.get("harness")]
     _tag_lines(ops)
+    _note_env_tag(scn, ops)
+    for o in ops:
+        if o.get("ext"):
+            ck.count("op-on-a-file-later-moved-onto-a-result-file:" + o["op"] + (",failed=" + o["failed"] if o.get("failed") else ""))
     runs, gs = _acts_of(scn, rec)
     for o in ops:
         ck.count("op:" + o["op"])
@@ -1346,6 +1717,7 @@ def _check_record(ck, ev, scn, rec):
         mops = rep["ops"]
         real = [_canon(o) for o in ops]
         if mops != real:
+            _L2_BROKEN.append(scn)
             k = next((i for i, (a, b) in enumerate(zip(mops, real)) if a != b), min(len(mops), len(real)))
             ck.mismatch(case, {"first_difference_at_op": k, "model": mops[k:k + 3], "impl": real[k:k + 3],
                                "n_model": len(mops), "n_impl": len(real)})
@@ -1422,6 +1794,8 @@ def _tag_owner(ops):
     owner = {}
     for o in ops:
         sid = o.get("sid", 0)
+        if o.get("failed"):
+            continue
         if o["op"] == "rename":
             if o["n"] in owner:
                 owner[o["to"]] = owner.pop(o["n"])
@@ -1572,7 +1946,7 @@ def _judge(ck, ev, scn, case, phase, text, own, done_lines, dumped, post, fail, 
     ev.ask({"op": "check", "text": text, "sid": own, "done": done, "dumped": dumped, "expect": expect, "want_records": True}, on_check)
 
 
-def _check_kill(ck, ev, scn, rec, gs, runs, k, res):
+def _check_kill(ck, ev, scn, rec, gs, runs, k, res, mode="P"):
     ops = rec["code_ops"]
     phase = _phase_of(ops, gs, k)
     case = {"scn": scn, "kill": {"before_op": k, "op": _canon(ops[k]) if ops[k]["op"] != "write" else {"op": "write", "n": ops[k]["n"]},
@@ -1587,8 +1961,11 @@ def _check_kill(ck, ev, scn, rec, gs, runs, k, res):
     # inside one gather is the event loop's choice and may differ): otherwise the recorded structure says
     # nothing about this execution and the kill point is skipped
     rawk = ops[k]["raw"]
-    exp = [o for o in rec["ops"][:rawk] if _matched(o)]
-    kops = [o for o in res["ops"] if not o.get("killed")]
+    # (a kill addressed through strace's path filter shows the calls that filter selects, the other kind shows them all)
+    # (a file that is later moved onto a result file is recognised only once that move has been seen: calls that concern
+    # nothing but such a file are left out on both sides)
+    exp = [o for o in rec["ops"][:rawk] if (mode == "all" or _matched(o)) and not _pure_ext(o)]
+    kops = [o for o in res["ops"] if not o.get("killed") and not _pure_ext(o)]
     if len(kops) == len(exp):
         for a, b in zip(kops, exp):
             a["sid"] = b.get("sid", 0)
@@ -1786,6 +2163,7 @@ def _run_cases(ck, pool, scns, kills_for, selfkills=True):
             inj = _inject_for(rec["ops"], ops[k]["raw"])
             if inj is None:
                 continue
+            ck.count("kill-addressing:" + ("strace path filter" if inj[2] == "P" else "n-th call of the process (file named at run time)"))
             todo.append((scn, rec, gs, runs, k, {"scn": scn, "inject": inj, "post": True, "torn": ops[k]["op"] == "write"}))
     sks = []
     for scn, rec in zip(scns, recs):
@@ -1819,7 +2197,7 @@ def _run_cases(ck, pool, scns, kills_for, selfkills=True):
     order = sorted(range(len(todo)), key=lambda i: (_size(todo[i][0]), todo[i][4]))
     for i in order:
         scn, rec, gs, runs, k, _ = todo[i]
-        _check_kill(ck, ev, scn, rec, gs, runs, k, ress[i])
+        _check_kill(ck, ev, scn, rec, gs, runs, k, ress[i], todo[i][5]["inject"][2])
     try:
         ev.flush()
     finally:
@@ -1897,9 +2275,14 @@ def _inprocess_slice(ck):
 def run(ck):
     ck.rule = ("real RandomSearch/CBO(ET) searches (serial evaluator; 1-3 objectives; batches 1-8; 1-3 search() calls; failing "
                "evaluations none/first batch/some/all; narrow and wide rows; stored text benign or with CSV-special characters "
-               "(categorical value, metadata strings and key, failure label); 1-5 searches per log_dir, real or constant clock) traced "
-               "with strace; kill injected before every recorded system call on results.csv/results.csv.tmp (quick: sample with "
-               "first/last/creation/rename/rewrite points); distinct by (scenario, kill point); non-trivial = killed run")
+               "(categorical value, metadata strings and key, failure label); 1-5 searches per log_dir, real or constant clock; "
+               "process environment: log_dir and the system temporary directory (TMPDIR) on each pair of the writable file systems "
+               "found at run time, working directory same file system / parent of a RELATIVE log_dir / changed after construction / "
+               "another file system - quick: every scenario draws one, thorough: three compact scenarios in every pair) traced "
+               "with strace; kill injected before every recorded system call on results.csv/results.csv.tmp and on any file, in "
+               "whatever directory, that is later renamed / linked / copied onto a result file (quick: sample with "
+               "first/last/creation/rename/rewrite points, never dropping the calls around an open-for-truncation of or a copy into "
+               "results.csv); distinct by (scenario, kill point); non-trivial = killed run")
     ck.assumptions = [
         "a single write(2)/rename(2) is atomic with respect to SIGKILL (the kill is delivered on system-call entry)",
         "CPython's buffered text layer hands whole CSV lines to write(2) (checked on every recorded write: a payload with an incomplete last line is reported)",
@@ -1907,14 +2290,27 @@ def run(ck):
         "one search object at a time writes in a log_dir (searches run one after the other; they may all be constructed first)",
     ]
     ck.trusted_extra = [
-        "strace 6.1 (-f -y -p attach, -P path filter, inject=…:signal=KILL:when=n) as observer and kill injector",
+        "strace 6.1 (-f -y -p attach, -P path filter, inject=…:signal=KILL:when=n) as observer and kill injector; calls on files "
+        "named at run time are addressed as the n-th call of the process (counted in the recorded run; an execution whose calls "
+        "before the kill differ from the recorded ones is skipped and counted)",
+        "the mount layout of this machine (os.stat().st_dev of candidate directories) as the source of 'another file system'; "
+        "the environment model (rename = EXDEV across file systems, shutil.move = truncate-and-copy) is compared with the real "
+        "standard library / kernel in every pair of file systems on every run",
         "the strace output parser of harness/c15.py (the bytes->lines reading is now the model's `abstract`)",
         "pandas.read_csv / to_csv / csv.DictWriter / the OS file system are modelled, not verified (writer and reader model are "
         "compared with the real bytes, csv.reader and pandas.read_csv at every judged state)",
         "the harness's own CSV scanner (_csv_scan, same state machine as Model/Csv.lean; used to split write payloads and torn files)",
     ]
     os.environ["C15_SCRATCH"] = f"{SCRATCH}_{os.getpid()}"
-    _inprocess_slice(ck)
+    _detect_filesystems(ck)
+    try:
+        _inprocess_slice(ck)
+        _run_all(ck)
+    finally:
+        _cleanup_filesystems()
+
+
+def _run_all(ck):
     with _pool() as pool:
         corpus = _corpus_cases()
         if corpus:
@@ -1937,25 +2333,146 @@ def run(ck):
                 ck.count("cells:" + ("csv-special characters" if _is_hostile(r) else "benign") + (",nobj>=2" if r["nobj"] > 1 else ",nobj=1"))
                 ck.count("wide" if r["wide"] else "narrow")
             ck.count("clock:" + s["clock"])
+            ck.count(_env_key(_env_of(s)))
+            if _n_fs() == 1:
+                ck.count("env:cross-device-unavailable (one writable file system on this machine)")
         _run_cases(ck, pool, scns, lambda scn, ops, gs: _kill_points(ck, scn, ops, gs))
-    shutil.rmtree(os.environ["C15_SCRATCH"], ignore_errors=True)
+        _move_probes(ck, pool)
+
+
+def _move_probes(ck, pool):
+    """L2 of the environment model (Model/FilesEnv.lean): in every pair (file system of log_dir, file system of the
+    system temporary directory) the standard library moves a complete file from the temporary directory onto
+    results.csv under strace; the calls must be `moveOps` (one rename / failed rename + open + open-truncate + copy +
+    closes), and after a kill on entry of each call results.csv on disk must be the model's at that prefix"""
+    nfs = _n_fs()
+    scns = [{"probe": "move", "env": {"log": l, "tmp": t, "cwd": "same"}, "runs": []} for l in range(nfs) for t in range(nfs)]
+    recs = list(pool.map(_task, [{"scn": s} for s in scns]))
+    tags = lambda text: [["h", r[-1] == "pareto_efficient"] if "job_id" in r else ["r", 0, int(r[3]), len(r) == 5] for r in _records(text)]
+    old, new = tags(PROBE_OLD), tags(PROBE_NEW)
+    ev = _Eval(ck)
+    todo = []
+    for scn, rec in zip(scns, recs):
+        case = {"scn": scn, "kill": None}
+        if rec.get("err") or rec["status"] != 0:
+            raise HarnessError(f"move probe failed: status {rec['status']} {rec.get('err')}")
+        for i, o in enumerate(rec["ops"]):
+            o["raw"] = i
+        ops = [o for o in rec["ops"] if o.get("sid") == 1]
+        same = rec["tmp_on_log_dev"]
+        ck.count("env-model:move " + ("inside one file system" if same else "across file systems"))
+        seen = []
+        for o in ops:
+            if o["op"] in ("unlink", "unlinkat") or (o["op"] == "copy" and o["bytes"] == "0"):
+                continue  # (the unlink of the source and the copy loop's end-of-file probe are not in the model)
+            c = {"op": o["op"], "n": "src" if _is_ext(o["n"]) else o["n"]}
+            if "to" in o:
+                c["to"] = o["to"]
+            if o["op"] == "copy":
+                c = {"op": "write", "n": o["n"], "lines": new if o["bytes"] == str(len(PROBE_NEW.encode())) else o["bytes"]}
+            seen.append((c, not o.get("failed")))
+        kills = [o for o in ops if _inject_for(rec["ops"], o["raw"])]
+
+        def on_model(rep, scn=scn, rec=rec, seen=seen, case=case):
+            if [c for c, _ in seen] != rep["ops"] or [ok for _, ok in seen] != rep["sys_ok"]:
+                ck.mismatch(case, {"environment_model": "moveOps != the system calls of shutil.move", "model": rep["ops"], "model_ok": rep["sys_ok"],
+                                   "impl": [c for c, _ in seen], "impl_ok": [ok for _, ok in seen]})
+
+            def on_final(r2):
+                if r2["lines"] != rep["results"][-1]:
+                    ck.mismatch(case, {"environment_model": "results.csv after the move", "model": rep["results"][-1], "disk": r2["lines"]})
+            ev.ask({"op": "check", "text": rec["files"].get("results.csv"), "sid": 0, "done": [], "dumped": []}, on_final)
+            ck.case(case, nontrivial=True)
+        ev.ask({"op": "move", "same": same, "old": old, "new": new, "sizes": [len(new)]}, on_model)
+        for o in kills:
+            todo.append((scn, rec, same, [x["raw"] for x in ops if x["op"] not in ("unlink", "unlinkat") and not (x["op"] == "copy" and x["bytes"] == "0")],
+                         o, {"scn": scn, "inject": _inject_for(rec["ops"], o["raw"])}))
+    ress = list(pool.map(_task, [t[-1] for t in todo]))
+    for (scn, rec, same, modelled, o, task), res in zip(todo, ress):
+        case = {"scn": scn, "kill": {"before_op": _canon(o)}}
+        if not (os.WIFSIGNALED(res["status"]) and os.WTERMSIG(res["status"]) == signal.SIGKILL):
+            ck.count("kill-not-reached")
+            continue
+        # the model's prefix: the modelled calls made before the killed one
+        k = sum(1 for r in modelled if r < o["raw"])
+
+        def on_model(rep, res=res, k=k, case=case):
+            def on_disk(r2):
+                ck.count("env-model:kill inside the move, results.csv " + ("empty" if r2["lines"] == [] else "absent" if r2["lines"] is None else "a table"))
+                if r2["lines"] != rep["results"][k]:
+                    ck.mismatch(case, {"environment_model": f"results.csv after a kill before call {k} of the move", "model": rep["results"][k], "disk": r2["lines"]})
+            ev.ask({"op": "check", "text": res["files"].get("results.csv"), "sid": 0, "done": [], "dumped": []}, on_disk)
+            ck.case(case, nontrivial=True)
+        ev.ask({"op": "move", "same": same, "old": old, "new": new, "sizes": [len(new)]}, on_model)
+    try:
+        ev.flush()
+    finally:
+        ev.close()
+
+
+def search(ck):
+    """Called when the correspondence broke and `run` found no failing input.  The recorded system calls of some
+    scenarios are not the model's: the kill points of THOSE observed traces are enumerated on the real code - the
+    process is killed on entry of every recorded call (on result files and on files that are later moved / copied onto
+    them, wherever they are), in every environment this machine offers (log_dir and the system temporary directory on each
+    pair of writable file systems; working directory same / parent of a relative log_dir / changed / elsewhere) - and every
+    disk state is judged by the same verified checkers.  Stops at the first scenario that yields a failing input."""
+    os.environ["C15_SCRATCH"] = f"{SCRATCH}_{os.getpid()}"
+    _detect_filesystems(ck)
+    try:
+        seen, cands = set(), []
+        for scn in sorted(_L2_BROKEN, key=_size):
+            key = common.canon({k: v for k, v in scn.items() if k != "env"})
+            if key not in seen:
+                seen.add(key)
+                cands.append(scn)
+        if not cands:
+            # nothing recorded (L1 broke, or the harness could not interpret the tree): the compact scenarios
+            cands = [{"clock": "real", "runs": [{"kind": "random", "nobj": 2, "batch": 2, "calls": [3, 2]}]},
+                     {"clock": "const", "runs": [{"kind": "random", "nobj": 1, "batch": 2, "calls": [2]},
+                                                 {"kind": "random", "nobj": 2, "batch": 2, "calls": [2]}]}]
+        cands = cands[: ck.pick(3, 8)]
+        nfs = _n_fs()
+        envs = [{"log": l, "tmp": t, "cwd": "same"} for l in range(nfs) for t in range(nfs)]
+        envs += [{"log": 0, "tmp": 0, "cwd": c} for c in CWD_KINDS if c != "same"]
+        with _pool() as pool:
+            for scn in cands:
+                scns = []
+                for e in envs:
+                    c = json.loads(json.dumps({k: v for k, v in scn.items() if k != "env"}))
+                    c["env"] = e
+                    for r in c["runs"]:
+                        r.setdefault("wide", 0), r.setdefault("fail", "none"), r.setdefault("seed", 1), r.setdefault("cells", "benign")
+                    c.setdefault("clock", "real")
+                    scns.append(c)
+                    ck.count("search:" + _env_key(e))
+                ck.count("search:scenarios whose observed trace is enumerated")
+                _run_cases(ck, pool, scns, lambda s, ops, gs: list(range(len(ops))), selfkills=False)
+                if ck.failures:
+                    break
+    finally:
+        _cleanup_filesystems()
 
 
 def replay(ck, case):
     scn = case["scn"]
     os.environ["C15_SCRATCH"] = f"{SCRATCH}_{os.getpid()}"
+    _detect_filesystems(ck)
     kill = case.get("kill") or {}
-    with _pool(2) as pool:
-        if "selfkill" in kill:
-            ev = _Eval(ck)
-            res = list(pool.map(_task, [{"scn": scn, "selfkill": kill["selfkill"], "post": True}]))[0]
-            _check_selfkill(ck, ev, scn, kill["selfkill"], res)
-            try:
-                ev.flush()
-            finally:
-                ev.close()
-        else:
-            _run_cases(ck, pool, [scn], lambda s, ops, gs: _spec_kills([case.get("kill")], ops, gs), selfkills=False)
-    shutil.rmtree(os.environ["C15_SCRATCH"], ignore_errors=True)
+    try:
+        with _pool(2) as pool:
+            if "selfkill" in kill:
+                ev = _Eval(ck)
+                rec, res = list(pool.map(_task, [{"scn": scn}, {"scn": scn, "selfkill": kill["selfkill"], "post": True}]))
+                _note_env_tag(scn, [o for o in rec["ops"] if not o.get("harness")])
+                _check_selfkill(ck, ev, scn, kill["selfkill"], res)
+                try:
+                    ev.flush()
+                finally:
+                    ev.close()
+            else:
+                _run_cases(ck, pool, [scn], lambda s, ops, gs: _spec_kills([case.get("kill")], ops, gs), selfkills=False)
+    finally:
+        _cleanup_filesystems()
     print("replay:", json.dumps({"scenario": scn, "kill": case.get("kill"), "failures": [f["fingerprint"] for f in ck.failures],
                                  "mismatches": len(ck.mismatches)}))
